@@ -7,39 +7,85 @@ fields are in the order `FieldList.sort` puts them in (the reader sorts the fiel
 printer does not).
 -/
 import SMD.Proofs.StdCodec
+import SMD.Proofs.StdCodecCanonical
 namespace SMD.C16
 open SetTrie Ser
 
 -- STATEMENT-FALSE: the associative-list key `.key [("b", null), ("a", null)]` is printed as
 -- `k:{"b":null,"a":null}` (the printer keeps the order of the fields) and read back as
 -- `.key [("a", null), ("b", null)]` (`deserializePE` applies `FieldList.sort`), which `PE.equals`
--- (position-wise on the fields) distinguishes from the original.  A key with a repeated field name, e.g.
--- `[("a", 1), ("a", 2)]`, fails in the same way (`FieldList.sort` reverses equal names).
+-- (position-wise on the fields) distinguishes from the original.  (A key with a repeated field name in
+-- non-descending order, e.g. `[("a", 1), ("a", 2)]`, is left alone: `FieldList.sort` is stable.)
 -- theorem std_roundtrip (pe : PE) (s : String) (h : serializePE pe = some s) :
 --     ∃ pe', deserializePE s = .ok pe' ∧ PE.equals pe' pe = true
 example : ¬ ∀ (pe : PE) (s : String), serializePE pe = some s →
     ∃ pe', deserializePE s = .ok pe' ∧ PE.equals pe' pe = true := by
   intro h
-  have hs : jsonFields [("b", .null), ("a", .null)] = some "\"b\":null,\"a\":null" := rfl
+  have hs : jsonKeyFields [("b", .null), ("a", .null)] = some "\"b\":null,\"a\":null" := rfl
   have h1 := h (.key [("b", .null), ("a", .null)]) ("k:{" ++ "\"b\":null,\"a\":null" ++ "}") rfl
-  have h2 := (Ser.std_roundtrip_key_iff _ _ hs).1 h1
+  have h2 := (Ser.std_roundtrip_key_iff _ _ hs rfl).1 h1
+  exact absurd h2 (by decide)
+
+-- STATEMENT-FALSE: the list index `.index (2^63)` is printed as `i:9223372036854775808`, which
+-- `deserializePE` rejects (`strconv.Atoi`: value out of range for Go's 64-bit `int`).  Also: the value
+-- `.value (.int 9007199254740993)` (2^53+1, not a float64) is printed as `v:9007199254740993`, which the
+-- reader would have to round (Go reads 9007199254740992): `deserializePE` answers `unsupported`
+-- (`Ser.deserializePE_value_big`).  Also: the value `.value (.map [("b", null), ("a", null)])` is printed as
+-- `v:{"b":null,"a":null}` and read back as the Go map `{a: null, b: null}` (keys sorted;
+-- `Ser.deserializePE_value_unsorted`), which `PE.equals` (position-wise on map entries) distinguishes from
+-- the original; a map with a repeated key loses all but the last.
+-- theorem std_roundtrip_of_keySorted (pe : PE) (s : String) (h : serializePE pe = some s)
+--     (hk : pe.keySorted = true) :
+--     ∃ pe', deserializePE s = .ok pe' ∧ PE.equals pe' pe = true
+example : ¬ ∀ (pe : PE) (s : String), serializePE pe = some s → pe.keySorted = true →
+    ∃ pe', deserializePE s = .ok pe' ∧ PE.equals pe' pe = true := by
+  intro h
+  obtain ⟨pe', h1, _⟩ := h (.index (2 ^ 63)) "i:9223372036854775808" (by decide) rfl
+  rw [Ser.deserializePE_index_big] at h1
+  cases h1
+example : ¬ ∀ (pe : PE) (s : String), serializePE pe = some s → pe.keySorted = true →
+    ∃ pe', deserializePE s = .ok pe' ∧ PE.equals pe' pe = true := by
+  intro h
+  obtain ⟨pe', h1, h2⟩ := h (.value (.map [("b", .null), ("a", .null)])) "v:{\"b\":null,\"a\":null}" (by decide) rfl
+  rw [Ser.deserializePE_value_unsorted] at h1
+  cases h1
   exact absurd h2 (by decide)
 
 /-- reading a printed key yields an equivalent path element, for every element whose key fields are in
 sorted order (`PE.keySorted`: `FieldList.sort k` equals `k`; trivially true of field names, values and
-indices) -/
-theorem std_roundtrip_of_keySorted (pe : PE) (s : String) (h : serializePE pe = some s)
-    (hk : pe.keySorted = true) :
+indices) and which lies in the domain on which the codec is exact (`PE.inGoDomain`: a list index fits
+Go's `int`; every int inside a key or a value is exactly a float64, e.g. of magnitude at most 2^53; every
+map inside a key or a value has strictly ascending keys, the canonical form of a Go map) -/
+theorem std_roundtrip_of_keySorted_of_inGoDomain (pe : PE) (s : String) (h : serializePE pe = some s)
+    (hk : pe.keySorted = true) (hd : pe.inGoDomain = true) :
     ∃ pe', deserializePE s = .ok pe' ∧ PE.equals pe' pe = true :=
-  Ser.std_roundtrip_of_keySorted pe s h hk
+  Ser.std_roundtrip_of_keySorted pe s h hk hd
 
-/-- the extra hypothesis is exactly what is needed: a printed associative-list key is read back as an
-equivalent element if and only if its fields are in sorted order -/
-theorem std_roundtrip_key_iff_sorted (k : FieldList) (s : String) (h : serializePE (.key k) = some s) :
+-- STATEMENT-FALSE: the key `[("a", .int 9007199254740993)]` (2^53+1, not a float64) has its fields in
+-- sorted order and is printed as `k:{"a":9007199254740993}`, which `deserializePE` does not read back
+-- (`unsupported`: the number would have to be rounded).
+-- theorem std_roundtrip_key_iff_sorted (k : FieldList) (s : String) (h : serializePE (.key k) = some s) :
+--     (∃ pe', deserializePE s = .ok pe' ∧ PE.equals pe' (.key k) = true) ↔ (PE.key k).keySorted = true
+example : ¬ ∀ (k : FieldList) (s : String), serializePE (.key k) = some s →
+    ((∃ pe', deserializePE s = .ok pe' ∧ PE.equals pe' (.key k) = true) ↔ (PE.key k).keySorted = true) := by
+  intro h
+  obtain ⟨pe', h1, _⟩ := (h [("a", .int 9007199254740993)] "k:{\"a\":9007199254740993}" (by decide)).2 (by decide)
+  rw [Ser.deserializePE_key_big] at h1
+  cases h1
+
+/-- the extra hypothesis `keySorted` is exactly what is needed: a printed associative-list key (inside the
+domain on which the codec is exact) is read back as an equivalent element if and only if its fields are in
+sorted order -/
+theorem std_roundtrip_key_iff_sorted_of_inGoDomain (k : FieldList) (s : String)
+    (h : serializePE (.key k) = some s) (hd : (PE.key k).inGoDomain = true) :
     (∃ pe', deserializePE s = .ok pe' ∧ PE.equals pe' (.key k) = true) ↔ (PE.key k).keySorted = true := by
   simp only [serializePE, Option.map_eq_some_iff] at h
   obtain ⟨a, ha, rfl⟩ := h
-  exact Ser.std_roundtrip_key_iff k a ha
+  exact Ser.std_roundtrip_key_iff k a ha hd
+
+/-- ints of magnitude at most 2^53 are exactly float64s -/
+theorem inGoDomain_int_of_le (i : Int) (h : i.natAbs ≤ 2 ^ 53) : (Value.int i).inGoDomain = true := by
+  simpa [Value.inGoDomain] using Ser.isFloat64Units_int_of_le i h
 
 /-- keys whose field names are strictly ascending (what `KeyByFields` / `FieldList.Sort` produce in Go for
 distinct names) have their fields in sorted order -/
@@ -61,16 +107,44 @@ theorem std_total_of_noFloat (pe : PE) (h : pe.noFloat = true ∧ pe ≠ .invali
 example : ¬ ∀ (s : SetTrie), s.wf = true → s.allPrintable = true →
     ∃ j, toJSON s = some j ∧ ∃ s', fromJSON j = .ok s' ∧ equals s' s = true := by
   intro h
-  have hs : jsonFields [("b", .null), ("a", .null)] = some "\"b\":null,\"a\":null" := rfl
+  have hs : jsonKeyFields [("b", .null), ("a", .null)] = some "\"b\":null,\"a\":null" := rfl
   have h1 := h (node [.key [("b", .null), ("a", .null)]] []) rfl rfl
-  have h2 := Ser.sorted_of_read_emit_key_singleton _ _ hs h1
+  have h2 := Ser.sorted_of_read_emit_key_singleton _ _ hs rfl h1
   exact absurd h2 (by decide)
 
+-- STATEMENT-FALSE: the well-formed set `{ [.index (2^63)] }` (printable, no keys) is emitted as
+-- `{"i:9223372036854775808":{}}`, which the reader rejects (index outside Go's `int`).
+-- theorem read_emit_std_of_keysSorted (s : SetTrie) (hs : s.wf = true) (hp : s.allPrintable = true)
+--     (hk : s.allKeysSorted = true) :
+--     ∃ j, toJSON s = some j ∧ ∃ s', fromJSON j = .ok s' ∧ equals s' s = true
+example : ¬ ∀ (s : SetTrie), s.wf = true → s.allPrintable = true → s.allKeysSorted = true →
+    ∃ j, toJSON s = some j ∧ ∃ s', fromJSON j = .ok s' ∧ equals s' s = true := by
+  intro h
+  exact Ser.singleton_std_not_ok (.index (2 ^ 63)) "i:9223372036854775808" (by decide)
+    (.inl Ser.deserializePE_index_big) (h (node [.index (2 ^ 63)] []) rfl (by decide) rfl)
+
 /-- serialising a set with the concrete codec and parsing it back yields an equal set, for every
-well-formed set all of whose path elements are printable and have their key fields in sorted order -/
-theorem read_emit_std_of_keysSorted (s : SetTrie) (hs : s.wf = true) (hp : s.allPrintable = true)
-    (hk : s.allKeysSorted = true) :
+well-formed set all of whose path elements are printable, have their key fields in sorted order and lie
+in the domain of the Go type (`PE.inGoDomain`) -/
+theorem read_emit_std_of_keysSorted_of_inGoDomain (s : SetTrie) (hs : s.wf = true) (hp : s.allPrintable = true)
+    (hk : s.allKeysSorted = true) (hd : s.allInGoDomain = true) :
     ∃ j, toJSON s = some j ∧ ∃ s', fromJSON j = .ok s' ∧ equals s' s = true :=
-  Ser.fromJSON_toJSON_std s hs hp hk
+  Ser.fromJSON_toJSON_std s hs hp hk hd
+
+/-- whatever the key text: a path element returned by `deserializePE` holds maps (inside the fields of a
+`k:` key, inside a `v:` value, at every nesting level) in the canonical form of a Go map only — keys
+strictly ascending, hence sorted and free of repeats (`jsoniter.Iterator.Read` builds Go maps: the last of
+a repeated key wins; the library treats maps as key-sorted) -/
+theorem deserialize_maps_canonical (s : String) (pe : PE) (h : deserializePE s = .ok pe) :
+    pe.mapsCanonical = true := Ser.deserializePE_mapsCanonical s pe h
+
+/-- `FieldList.sort` is stable: a key whose field names are already in non-descending order (repeats
+included) is left as it is -/
+theorem sort_stable (k : FieldList) (h : k.Pairwise (fun a b => ¬ b.1 < a.1)) : FieldList.sort k = k :=
+  Ser.sort_eq_self_of_nondescending k h
+
+/-- the output of `FieldList.sort` is sorted by name, and sorting again changes nothing -/
+theorem sort_sorted (k : FieldList) : (FieldList.sort k).Pairwise (fun a b => ¬ b.1 < a.1) := Ser.sort_sorted k
+theorem sort_idempotent (k : FieldList) : FieldList.sort (FieldList.sort k) = FieldList.sort k := Ser.sort_sort k
 
 end SMD.C16
